@@ -7,7 +7,8 @@ CONSTANTS
   Handles <- C_Handles
   DepSets <- C_DepSets
   HandlerSeqs <- C_HSeqs
-  UpRegs <- C_UpRegs
+  UpProgs <- C_UpProgs
+  CRProg <- C_CR
   QuitOn = FALSE
   QuitDeferred = FALSE
   DefCap = 0
@@ -23,4 +24,5 @@ PROPERTY ExactlyOnce
 PROPERTY FiredForever
 PROPERTY NeverEarly
 PROPERTY LifeLogged
+PROPERTY CROnce
 CHECK_DEADLOCK FALSE
